@@ -1,0 +1,9 @@
+// SPDX-License-Identifier: Apache-2.0
+// Copyright Authors of Cilium
+
+//go:build !verif
+
+package internal
+
+// verifLockHook is a no-op unless built with the "verif" tag.
+func verifLockHook(string, uint64) {}
